@@ -350,6 +350,17 @@ cdef write_union(bytearray fo, datum, schema, dict named_schemas, fname, dict op
     write_data(fo, datum, schema[index], named_schemas, fname, options)
 
 
+cdef bint _accepts_null(field_type):
+    """True if a missing value can be written as null for this field type. The
+    null type may be spelled "null" or {"type": "null"}, alone or in a union"""
+    if isinstance(field_type, list):
+        for t in field_type:
+            if extract_record_type(t) == "null":
+                return True
+        return False
+    return extract_record_type(field_type) == "null"
+
+
 cdef write_record(bytearray fo, object datum, dict schema, dict named_schemas, dict options):
     """A record is encoded by encoding the values of its fields in the order
     that they are declared. In other words, a record is encoded as just the
@@ -381,7 +392,7 @@ cdef write_record(bytearray fo, object datum, dict schema, dict named_schemas, d
                     raise ValueError(
                         f"Field {name} is specified in the schema but missing from the record"
                     )
-                elif "default" not in field and "null" not in field_type:
+                elif "default" not in field and not _accepts_null(field_type):
                     raise ValueError(f"no value and no default for {name}")
             datum_value = datum.get(name, field.get("default"))
             if field_type == "float" or field_type == "double":
@@ -400,7 +411,7 @@ cdef write_record(bytearray fo, object datum, dict schema, dict named_schemas, d
                     raise ValueError(
                         f"Field {name} is specified in the schema but missing from the record"
                     )
-                elif "default" not in field and "null" not in field_type:
+                elif "default" not in field and not _accepts_null(field_type):
                     raise ValueError(f"no value and no default for {name}")
             d_datum_value = d_datum.get(name, field.get("default"))
             if field_type == "float" or field_type == "double":
